@@ -16,6 +16,8 @@ type Doc struct {
 	Text       string   `json:"text"`
 	Features   []string `json:"features,omitempty"`
 	NonTrivial bool     `json:"non_trivial,omitempty"`
+	// Expect is the reference meaning of the document (buf.yaml only): see expect.go.
+	Expect *Expect `json:"expect,omitempty"`
 }
 
 func (d *Doc) feat(f string) { d.Features = append(d.Features, f) }
@@ -131,6 +133,11 @@ type checkSection struct {
 	disabled bool
 	empty    bool // counts as "not configured" for the reader
 	canon    string
+	// the meaning of the section, kept next to its rendering: normalized workspace-relative paths
+	present    bool
+	isLint     bool
+	ignore     []string
+	ignoreOnly map[string][]string
 }
 
 // genCheckSection draws a lint (isLint) or breaking section. Paths are workspace-relative: inside
@@ -144,7 +151,7 @@ func genCheckSection(t *rapid.T, label string, version string, isLint bool, dir 
 		names = LintNames(version)
 	}
 	m := &Map{}
-	var cs checkSection
+	cs := checkSection{present: true, isLint: isLint, ignoreOnly: map[string][]string{}}
 	if chance(t, label+"-use?", 1, 2) {
 		m.Set("use", Strs(subset(t, label+"-use", names, 4)))
 	}
@@ -187,6 +194,7 @@ func genCheckSection(t *rapid.T, label string, version string, isLint bool, dir 
 			d.feat(kind + ":disabling-ignore")
 		}
 		if len(ignore) > 0 {
+			cs.ignore = append([]string{}, ignore...)
 			m.Set("ignore", Strs(spellAll(t, label+"-ign", shuffled(t, label+"-ign", ignore))))
 			d.feat(kind + ":ignore")
 		}
@@ -208,9 +216,11 @@ func genCheckSection(t *rapid.T, label string, version string, isLint bool, dir 
 			}
 			if len(paths) == 0 {
 				io.Items = append(io.Items, KV{K: id, V: &List{}})
+				cs.ignoreOnly[id] = []string{}
 				continue
 			}
-			io.Set(id, Strs(spellAll(t, label+"-iosp", paths)))
+			cs.ignoreOnly[id] = append([]string{}, paths...)
+			io.Set(id, Strs(spellAll(t, label+"-iosp", shuffled(t, label+"-iosh", paths))))
 		}
 		if len(io.Items) > 0 {
 			m.Set("ignore_only", io)
@@ -430,12 +440,14 @@ func genBufYAMLV1(t *rapid.T, version string, st Style, d *Doc) *Map {
 			d.feat("roots>=2")
 		}
 	}
+	var allExcludes []string
 	if chance(t, "excludes?", 1, 2) {
 		var ex []string
 		for _, r := range roots {
 			ex = append(ex, genPathsUnder(t, "exclude", r, 2, false, ex)...)
 		}
 		ex = dedupNonNested(ex)
+		allExcludes = ex
 		if len(ex) > 0 {
 			build.Set("excludes", Strs(spellAll(t, "exsp", shuffled(t, "ex", ex))))
 			d.feat("excludes")
@@ -456,7 +468,25 @@ func genBufYAMLV1(t *rapid.T, version string, st Style, d *Doc) *Map {
 	if lint.disabled || breaking.disabled {
 		d.NonTrivial = true
 	}
+	em := ExpModule{DirPath: ".", FullName: nodeStr(root, "name"), Includes: map[string][]string{}, Excludes: map[string][]string{},
+		Lint: effectiveLint(lint, version, "."), Breaking: effectiveBreaking(breaking, version, ".")}
+	for _, r := range roots {
+		em.Includes[r] = []string{}
+		em.Excludes[r] = relAll(r, allExcludes)
+	}
+	d.Expect = &Expect{Modules: []ExpModule{em}, Deps: expectDeps(listOf(root, "deps"))}
 	return root
+}
+
+func listOf(m *Map, key string) *List {
+	for _, kv := range m.Items {
+		if kv.K == key {
+			if l, ok := kv.V.(*List); ok {
+				return l
+			}
+		}
+	}
+	return nil
 }
 
 var modulePaths = []string{".", "proto", "api", "proto/foo", "proto/bar", "vendor/x", "api/v1", "a b", "src/main/proto", "proto/foo/internal"}
@@ -469,6 +499,8 @@ func genBufYAMLV2(t *rapid.T, st Style, d *Doc) *Map {
 		lint, breaking checkSection
 		hasLint, hasBr bool
 		includes       bool
+		name           string
+		incl, excl     []string
 	}
 	var mods []mod
 	var dirs []string
@@ -519,7 +551,8 @@ func genBufYAMLV2(t *rapid.T, st Style, d *Doc) *Map {
 				mm.Set("path", Str(spell(t, lbl+"-pathsp", m.path)))
 			}
 			if chance(t, lbl+"-name?", 1, 2) {
-				mm.Set("name", Str(genModuleName(t, lbl+"-name", i)))
+				m.name = genModuleName(t, lbl+"-name", i)
+				mm.Set("name", Str(m.name))
 			}
 			var includes []string
 			if chance(t, lbl+"-includes?", 1, 3) {
@@ -527,6 +560,7 @@ func genBufYAMLV2(t *rapid.T, st Style, d *Doc) *Map {
 				if len(includes) > 0 {
 					mm.Set("includes", Strs(spellAll(t, lbl+"-incsp", shuffled(t, lbl+"-inc", includes))))
 					m.includes = true
+					m.incl = includes
 					d.feat("v2:includes")
 				}
 			}
@@ -541,6 +575,7 @@ func genBufYAMLV2(t *rapid.T, st Style, d *Doc) *Map {
 				}
 				ex = dedupNonNested(ex)
 				if len(ex) > 0 {
+					m.excl = ex
 					mm.Set("excludes", Strs(spellAll(t, lbl+"-excsp", shuffled(t, lbl+"-exc", ex))))
 					d.feat("v2:excludes")
 				}
@@ -608,6 +643,22 @@ func genBufYAMLV2(t *rapid.T, st Style, d *Doc) *Map {
 		root.Set("breaking", topBreaking.node)
 	}
 	root.Set("plugins", genCheckPlugins(t, "plugins", st, d))
+	// reference meaning
+	exp := &Expect{Deps: expectDeps(listOf(root, "deps"))}
+	if implicit {
+		mods = []mod{{path: ".", name: nodeStr(root, "name")}}
+	}
+	for _, m := range mods {
+		exp.Modules = append(exp.Modules, ExpModule{
+			DirPath: m.path, FullName: m.name,
+			Includes: map[string][]string{".": relAll(m.path, m.incl)},
+			Excludes: map[string][]string{".": relAll(m.path, m.excl)},
+			Lint:     effectiveLint(pick(m.lint, topLint), "v2", m.path),
+			Breaking: effectiveBreaking(pick(m.breaking, topBreaking), "v2", m.path),
+		})
+	}
+	sort.SliceStable(exp.Modules, func(i, j int) bool { return exp.Modules[i].DirPath < exp.Modules[j].DirPath })
+	d.Expect = exp
 	// key order is irrelevant to the reader
 	if chance(t, "keyorder", 1, 3) {
 		rest := root.Items[1:]
